@@ -450,8 +450,8 @@ func (r *runner) inject() {
 		other := u.keys[1-b.key.idx]
 		otherSig := ""
 		for _, o := range r.allBases() {
-			if o.doc == b.doc && o.tname == b.tname && o.key == other && o.named == b.named {
-				otherSig = o.sig // same payload signed by the other key
+			if o.doc.name == b.doc.name+"-rs" && o.tname == b.tname && o.key == other && o.named == b.named {
+				otherSig = o.sig // a genuine signature by the other key (over the same document + one member)
 			}
 		}
 		frags := []struct{ name, s string }{
@@ -649,7 +649,7 @@ func (r *runner) buildBases() {
 					r.bases = append(r.bases, b)
 				}
 				o := r.u.keys[1-k.idx]
-				b2, err := r.u.mkBase(d, k, o, ti) // names k, signed by o
+				b2, err := r.u.mkBase(resignedSpec(d), k, o, ti) // names k, signed by o
 				if err != nil || b2.sepIdx < 0 {
 					r.res.EngineError("cannot build re-signed document %s: %v", b2.name, err)
 					continue
@@ -673,6 +673,21 @@ func (r *runner) buildBases() {
 			r.bases = append(r.bases, b2)
 		}
 	}
+}
+
+var rsSpecs = map[*docSpec]*docSpec{}
+
+// resignedSpec is d with one more member, so that the payload signed by the
+// "wrong" key is never also signed by the key it names (the record of who
+// signed which bytes then identifies the maker of a signature exactly).
+func resignedSpec(d *docSpec) *docSpec {
+	if rs, ok := rsSpecs[d]; ok {
+		return rs
+	}
+	i := strings.LastIndex(d.tmpl, "}")
+	rs := &docSpec{name: d.name + "-rs", tmpl: d.tmpl[:i] + `,"resigned":"by the other key"` + d.tmpl[i:], sha1: d.sha1}
+	rsSpecs[d] = rs
+	return rs
 }
 
 func (k *keyInfo) refFor(d *docSpec) interface{ String() string } {
@@ -702,6 +717,11 @@ func TestCheck(t *testing.T) {
 	}
 	r := &runner{u: u, res: res, deadline: vk.Deadline(), outcomes: map[string]map[string]int64{}}
 	r.buildBases()
+	for p, who := range u.signedP {
+		if who != 1 && who != 2 {
+			res.EngineError("payload %q signed by both keys: the oracle could not tell whose signature was accepted", p)
+		}
+	}
 	if rp, ok := vk.ReplayFile(); ok {
 		r.replay(rp)
 		res.Write()
